@@ -285,7 +285,7 @@ def split_scenarios(trace_path):
     return scns
 
 
-_RESULT = re.compile(r'<<"RESULT", (\d+), (\d+), \{(.*?)\}>>')
+_RESULT = re.compile(r'<<\s*"RESULT",\s*(\d+),\s*(\d+),\s*\{(.*?)\}\s*>>', re.S)
 
 
 def _validate_chunk(args):
@@ -306,7 +306,7 @@ def _validate_chunk(args):
     nev, nscn_seen = int(m.group(1)), int(m.group(2))
     if nev != len(lines) or nscn_seen != nscn:
         raise MachineryError("trace validation consumed %d/%d events, %d/%d scenarios" % (nev, len(lines), nscn_seen, nscn))
-    bad = [int(x) for x in m.group(3).replace(" ", "").split(",") if x]
+    bad = [int(x) for x in re.sub(r"\s+", "", m.group(3)).split(",") if x]
     shutil.rmtree(d, ignore_errors=True)
     return bad, r["distinct"]
 
@@ -377,51 +377,55 @@ class Verdict:
         self.violations = []  # (replay path, summary)
         self.known = {}  # finding id -> count
         self.unreproduced = 0
+        self.total_violating = 0
 
 
-def classify_rejections(ctx, pid, module, harness_bin, harness_cmd, bad, scns, consts=None, max_examine=40,
-                        extra_args=(), reexec=None):
-    """Step 4: reproduce each rejected scenario alone, then try the known deviations."""
+def classify_rejections(ctx, pid, module, harness_bin, harness_cmd, bad, scns, consts=None, max_examine=300,
+                        extra_args=(), reexec=None, max_report=25):
+    """Step 4: re-run the rejected scenarios on the real code (one batch), keep those rejected again, then
+    re-validate them with each known deviation switched on."""
     v = Verdict()
     if not bad:
         return v
     known = load_known(pid)
     by_id = {sid: lines for sid, lines in scns}
-    examined = 0
-    sigs = {}
-    for sid in bad:
-        if examined >= max_examine:
-            ctx.notes.append("%d further rejected scenarios not examined individually" % (len(bad) - examined))
-            break
-        examined += 1
-        lines = by_id[sid]
-        case = json.loads(lines[0])
-        case.pop("ev", None)
-        cf_ = ctx.path("replay-%d.json" % sid)
-        with open(cf_, "w") as f:
+    todo = bad[:max_examine]
+    if len(bad) > len(todo):
+        ctx.notes.append("%d further rejected scenarios not examined individually" % (len(bad) - len(todo)))
+    cf_ = ctx.path("replay-cases.ndjson")
+    with open(cf_, "w") as f:
+        for sid in todo:
+            case = json.loads(by_id[sid][0])
+            case.pop("ev", None)
             f.write(json.dumps(case) + "\n")
-        tf = ctx.path("replay-%d.trace" % sid)
-        if reexec:
-            reexec(cf_, tf)
-        else:
-            run_harness(ctx, harness_bin, [harness_cmd, "-cases", cf_, "-out", tf, "-rand", 0] + list(extra_args))
-        b2, scn2, _ = validate_trace(ctx, module, tf, consts=consts, procs=1)
-        if not b2:
-            v.unreproduced += 1
-            log("[classify] scenario %d: rejection did not reproduce on re-run (not a verdict)" % sid)
-            continue
-        explained = None
-        for kf in known:
-            b3, _, _ = validate_trace(ctx, module, tf, dev=kf["dev"] if isinstance(kf["dev"], list) else [kf["dev"]],
-                                      consts=consts, procs=1)
-            if not b3:
-                explained = kf
-                break
+    tf = ctx.path("replay-trace.ndjson")
+    if reexec:
+        reexec(cf_, tf)
+    else:
+        run_harness(ctx, harness_bin, [harness_cmd, "-cases", cf_, "-out", tf, "-rand", 0] + list(extra_args))
+    b2, scn2, _ = validate_trace(ctx, module, tf, consts=consts)
+    v.unreproduced = len(todo) - len(b2)
+    if v.unreproduced:
+        log("[classify] %d rejections did not reproduce on re-run (not a verdict)" % v.unreproduced)
+    remaining = set(b2)
+    by_id2 = {sid: lines for sid, lines in scn2}
+    for kf in known:
+        if not remaining:
+            break
+        sub = ctx.path("replay-kf.ndjson")
+        with open(sub, "w") as f:
+            for sid in sorted(remaining):
+                f.writelines(by_id2[sid])
+        dev = kf["dev"] if isinstance(kf["dev"], list) else [kf["dev"]]
+        b3, _, _ = validate_trace(ctx, module, sub, dev=dev, consts=consts)
+        explained = remaining - set(b3)
         if explained:
-            v.known[explained["id"]] = v.known.get(explained["id"], 0) + 1
-            continue
-        path = save_replay(pid, scn2[0][1])
-        v.violations.append((path, case.get("txt", "")))
+            v.known[kf["id"]] = len(explained)
+            remaining -= explained
+    for sid in sorted(remaining)[:max_report]:
+        path = save_replay(pid, by_id2[sid])
+        v.violations.append((path, json.loads(by_id2[sid][0]).get("txt", "")))
+    v.total_violating = len(remaining)
     return v
 
 
@@ -432,6 +436,8 @@ def finish(ctx, pid, verdict, coverage, assumptions, level="model_checking"):
             log("KNOWN-FINDING: property=%s %s (%d scenarios; %s)" % (pid, kf["what"], verdict.known[kf["id"]], kf["id"]))
     for path, txt in verdict.violations:
         log("VIOLATION property=%s replay=%s %s" % (pid, path, txt))
+    if verdict.total_violating > len(verdict.violations):
+        log("[verdict] %d scenarios violate in total; first %d reported" % (verdict.total_violating, len(verdict.violations)))
     cov = dict(coverage)
     cov.setdefault("states", ctx.states)
     cov.setdefault("transitions", ctx.transitions)
@@ -441,7 +447,7 @@ def finish(ctx, pid, verdict, coverage, assumptions, level="model_checking"):
     if ctx.notes:
         cov["notes"] = ctx.notes
     ev = dict(property_id=pid, tier=ctx.tier, seed=ctx.seed, level=level, coverage=cov, assumptions=assumptions,
-              wall_s=round(time.time() - ctx.t0, 1), violations=len(verdict.violations))
+              wall_s=round(time.time() - ctx.t0, 1), violations=max(len(verdict.violations), verdict.total_violating))
     os.makedirs(os.path.join(VERIF, "evidence"), exist_ok=True)
     with open(os.path.join(VERIF, "evidence", pid + ".json"), "w") as f:
         json.dump(ev, f, indent=1, sort_keys=True)
